@@ -31,6 +31,11 @@ BindAll(rs, hs, bufs, def, mode) ==
                                    cls |-> IF Head(bufs) = <<>> THEN "must" ELSE DecodeClass(Head(bufs), def)]),
                Tail(hs), Tail(bufs), def, mode)
 
+RECURSIVE BindAny(_, _, _)
+BindAny(rs, hs, mode) ==
+  IF hs = <<>> THEN rs
+  ELSE BindAny(Bind(rs, Head(hs), [buf |-> <<>>, def |-> [tags |-> <<>>, nested |-> <<>>], live |-> TRUE, mode |-> mode, cls |-> "any"]), Tail(hs), mode)
+
 Outcome(e) == [st |-> e.st, val |-> e.val, vals |-> e.vals]
 
 DecodeOK(e) ==
@@ -59,12 +64,19 @@ NestedOK(e) ==
        ELSE Matches(ErrC(x.class), Outcome(e))
   /\ r.cls = "empty" => e.st # "ok"
 
+\* e.tag = 0: the callback always continues; e.tag = k > 0: it returns false at its k-th call, which has to be the last one
 RangeOK(e) ==
-  LET r == res[e.h] IN
+  LET r == res[e.h]
+      seen == {<<e.rng[i][1], e.rng[i][2]>> : i \in 1..Len(e.rng)} IN
   /\ e.st = "ok"
   /\ r.cls \in {"must", "empty"} =>
-       /\ {<<e.rng[i][1], e.rng[i][2]>> : i \in 1..Len(e.rng)} = RangeRef(r.buf, r.def)
-       /\ Len(e.rng) = Len(r.def.tags)
+       IF e.tag = 0
+       THEN seen = RangeRef(r.buf, r.def) /\ Len(e.rng) = Len(r.def.tags)
+       ELSE /\ seen \subseteq RangeRef(r.buf, r.def) /\ Cardinality(seen) = Len(e.rng)
+            /\ Len(e.rng) = (IF e.tag < Len(r.def.tags) THEN e.tag ELSE Len(r.def.tags))
+\* methods of nil receivers: Close and Range do nothing, every lookup is an error, nothing panics (codes: see the harness)
+NilOK(e) == /\ Len(e.val) = 11 /\ e.val[1] = 0 /\ e.val[2] = 0
+            /\ \A i \in 3..11 : e.val[i] \in {1, 2, 3}
 
 Flag(cond) == IF cond THEN bad ELSE Append(bad, l)
 
@@ -92,13 +104,16 @@ Step ==
                                   x == IF r.cls = "must" THEN NestedExp(e) ELSE [class |-> "x", bufs |-> <<>>] IN
                               IF x.class = "val" /\ Len(x.bufs) = Len(e.hs)
                               THEN BindAll(res, e.hs, x.bufs, NestedDef(r.def, Abs(e.tag)), r.mode)
-                              ELSE BindAll(res, e.hs, [i \in 1..Len(e.hs) |-> <<>>], [tags |-> <<>>, nested |-> <<>>], r.mode)
+                              ELSE BindAny(res, e.hs, r.mode)     \* results the model cannot attribute to an input: not judged further
                          ELSE res
                /\ UNCHANGED held
           [] e.c = "range" ->
                /\ desync' = IF e.h \in 1..Len(res) /\ res[e.h].live THEN desync ELSE Append(desync, l)
                /\ bad' = IF e.h \in 1..Len(res) /\ res[e.h].live THEN Flag(RangeOK(e)) ELSE bad
                /\ UNCHANGED <<res, held>>
+          [] e.c = "nilres" ->
+               /\ bad' = Flag(NilOK(e))
+               /\ UNCHANGED <<res, desync, held>>
           [] e.c = "close" ->
                /\ bad' = Flag(e.st = "ok")
                /\ res' = IF e.h \in 1..Len(res) THEN [res EXCEPT ![e.h].live = FALSE] ELSE res
